@@ -146,6 +146,29 @@ CHECKS = {
         'note': TRUST + ' Not decided: "same seed" (no setter exists) and lock-step equality of continuations.',
         'technique': 'static analysis: field classification + who-may-write via effect summaries + guard-atom dataflow over MIR',
     },
+    'C10': {
+        'text': 'Three structural clauses of flow independence: (a) every function that replaces StoryState::current_flow or '
+                'its call stack (switch_flow_internal, copy_and_start_patching, load_json_obj x2, the constructor) re-points '
+                'variables_state.callstack at the new flow\'s call stack on every successful path (must-pass-through); '
+                '(b) no insert into the parked-flow map has a key or value derived from the current flow, and the entry the '
+                'current flow is loaded from is removed on every path - a second copy is written over the live flow in '
+                'every save; (c) switching exchanges whole Flow values with one mem::swap and always parks the previous flow.',
+        'design_ref': 'DESIGN.md §4 C10',
+        'note': TRUST + ' Not decided: independence of transcripts over all interleavings (dynamic).',
+        'technique': 'static analysis: field-write enumeration + CFG must-pass-through + operand provenance over MIR',
+    },
+    'C11': {
+        'text': 'Four structural clauses of the observer contract: the change set is a map keyed by name and is notified from '
+                'exactly one site in one loop (at most once per variable), observers are called from one dyn site per '
+                'registered observer; notifications are dominated by complete_variable_observation and the decrement of '
+                'the nesting count and no look-ahead rewind can follow them; in set_global the batch set is written only '
+                'with no patch active (guard-atom dataflow), the patch records look-ahead changes and apply_patch merges '
+                'them; set_variable notifies iff VariablesState::set reports a change; registrations are written only by '
+                'observe/remove/new and removal has no unguarded panic site.',
+        'design_ref': 'DESIGN.md §4 C11',
+        'note': TRUST + ' Not decided: that delivered values equal what polling would show in every history.',
+        'technique': 'static analysis: dominators, guard-atom dataflow, call-site counting, who-may-write via effect events',
+    },
 }
 
 NOT_APPLICABLE = {
